@@ -45,8 +45,9 @@ def gen_store(rng):
     return s
 
 
-def gen_kind(rng):
+def gen_kind(rng, lookups=False):
     g = lang.Gen(rng, INTS, ARRS, FLAGS, FUNCS)
+    g.lookup_nodes = lookups
     c = rng.random()
     if c < 0.5:
         nloops = rng.choice([0, 0, 0, 1, 1, 2])
@@ -91,8 +92,9 @@ def gen_kind(rng):
     return rng.choice([["fail"], ["raise", "ValueError"], ["raise", "RuntimeError"], ["switch", "p2"], ["nop"]])
 
 
-def gen_cond(rng):
+def gen_cond(rng, lookups=False):
     g = lang.Gen(rng, INTS, ARRS, FLAGS, FUNCS)
+    g.lookup_nodes = lookups
     c = rng.random()
     if c < 0.35:
         return ["bool", True]
@@ -154,8 +156,9 @@ def gen_cases(tier, seed):
     rng = random.Random(seed * 1000003 + 8)
     n = 2500 if tier == "quick" else 40000
     cases = corpus()
-    for _ in range(n):
-        st, c, k = gen_store(rng), gen_cond(rng), gen_kind(rng)
+    for i in range(n):
+        lk = (i % 6 == 5)        # every sixth case may contain attribute lookups (oracle only)
+        st, c, k = gen_store(rng), gen_cond(rng, lk), gen_kind(rng, lk)
         if k[0] == "nop":
             c = ["bool", True]     # dagrt.language.Nop carries no condition
         # numpy gives `a[None]` (an unset index variable) a meaning of its own (newaxis): keep
@@ -270,6 +273,10 @@ def where(kind, variables):
     return "other"
 
 
+def has_lookup(c):
+    return '"lookup"' in json.dumps([c[1], c[2]])
+
+
 def in_model_universe(store, r):
     return all(v[0] != "other" for v in r["after"].values()) and \
         (r["event"] is None or (r["event"][2][0] != "other" and r["event"][3][0] != "other"))
@@ -357,7 +364,7 @@ def main(tier):
                        "recorded_accesses": r2["log"], "oracle": oracle(s2, c2, k2, r2)})
 
     # correspondence with the Coq model
-    idx = [i for i, (c, r) in enumerate(zip(cases, results)) if in_model_universe(c[0], r)]
+    idx = [i for i, (c, r) in enumerate(zip(cases, results)) if in_model_universe(c[0], r) and not has_lookup(c)]
     mism, n_eval, errors = [], 0, []
     if os.path.exists(os.path.join(common.COQ, "model", "LangCheck.vo")) and \
             os.path.exists(os.path.join(common.COQ, "gen", "GenLang.vo")):
